@@ -267,9 +267,9 @@ func (u *Unit) execCallVals(st *State, fr *Frame, site ssa.Instruction, c *ssa.C
 		if callee.Pkg != nil && strings.HasPrefix(callee.Pkg.Pkg.Path(), modulePath) {
 			u.lockSetCall(st, fr, site, callee, nil, nil)
 			if u.uncontracted == nil {
-				u.uncontracted = map[string]bool{}
+				u.uncontracted = map[string]*ssa.Function{}
 			}
-			u.uncontracted[callee.Name()] = true
+			u.uncontracted[callee.Name()] = callee
 			u.abstracted("call to in-repo function without contract: " + callee.String())
 			u.unknownCall(st, fr, site, sig, desigs, argT, true, k)
 			return
@@ -1941,4 +1941,53 @@ func (u *Unit) instantiateAt(st *State, idx Term) {
 			st.Assume(f)
 		}
 	}
+}
+
+// helperMayCall: helper, or a function of the module it statically calls, contains a
+// call site whose designators include desig.
+func (u *Unit) helperMayCall(helper *ssa.Function, desig string) bool {
+	seen := map[*ssa.Function]bool{}
+	var visit func(f *ssa.Function) bool
+	visit = func(f *ssa.Function) bool {
+		if f == nil || seen[f] {
+			return false
+		}
+		seen[f] = true
+		for _, b := range f.Blocks {
+			for _, in := range b.Instrs {
+				var c *ssa.CallCommon
+				switch x := in.(type) {
+				case *ssa.Call:
+					c = &x.Call
+				case *ssa.Defer:
+					c = &x.Call
+				case *ssa.Go:
+					c = &x.Call
+				case *ssa.MakeClosure:
+					if visit(x.Fn.(*ssa.Function)) {
+						return true
+					}
+					continue
+				default:
+					continue
+				}
+				var ds []string
+				if sc := c.StaticCallee(); sc != nil {
+					ds = u.funcDesignators(sc)
+					if sc.Pkg != nil && strings.HasPrefix(sc.Pkg.Pkg.Path(), modulePath) && visit(sc) {
+						return true
+					}
+				} else {
+					ds = u.dynDesignators(c)
+				}
+				for _, d := range ds {
+					if d == desig {
+						return true
+					}
+				}
+			}
+		}
+		return false
+	}
+	return visit(helper)
 }
